@@ -39,6 +39,7 @@ type PtrV struct {
 //   known dynamic:   Dyn != nil (DynT its type), Nil optional
 //   opaque:          Opaque != "" (identity), Nil optional symbolic
 type IfaceV struct {
+	IdT    *Term // identity as a term (BV32) for values merged from different opaque identities
 	Nil    *Term
 	Dyn    Value
 	DynT   types.Type
@@ -341,6 +342,9 @@ func (x *Exec) iteV(c *Term, a, bb Value) Value {
 			return &IfaceV{Nil: b.Ite(c, pn, qn), Opaque: p.Opaque, T: p.T}
 		case p.Dyn != nil && q.Dyn != nil && types.Identical(p.DynT, q.DynT):
 			return &IfaceV{Nil: b.Ite(c, pn, qn), Dyn: x.iteV(c, p.Dyn, q.Dyn), DynT: p.DynT, T: p.T}
+		case p.Dyn == nil && q.Dyn == nil:
+			// two opaque values of different identity (error values …)
+			return &IfaceV{Nil: b.Ite(c, pn, qn), Opaque: "#merged", IdT: b.Ite(c, x.ifaceId(p), x.ifaceId(q)), T: p.T}
 		}
 		unsupported("merge of different interface values")
 	case *SliceV:
@@ -479,4 +483,23 @@ func leavesOf(v Value, t types.Type, prefix string, f func(name string, path []P
 	default:
 		f(prefix, path, v, t)
 	}
+}
+
+// ifaceId: the identity of an opaque interface value as a term.
+func (x *Exec) ifaceId(p *IfaceV) *Term {
+	if p.IdT != nil {
+		return p.IdT
+	}
+	if p.Opaque == "" {
+		return x.b.Const(32, 0)
+	}
+	if x.opaqueIds == nil {
+		x.opaqueIds = map[string]uint64{}
+	}
+	id, ok := x.opaqueIds[p.Opaque]
+	if !ok {
+		id = uint64(len(x.opaqueIds) + 1)
+		x.opaqueIds[p.Opaque] = id
+	}
+	return x.b.Const(32, id)
 }
